@@ -167,6 +167,10 @@ pub fn shapes(tier: Tier) -> Vec<Shape> {
         out.push(mk("empty-key-two-level-committed", &d, vec![tx(ops.clone()), Action::Reopen], vec![]));
         out.push(mk("empty-key-two-level-midtx", &d, vec![tx(ops), Action::Reopen], vec![OpSpec::del(&["b"], "s01"), OpSpec::put(&["b"], "s02", "v*8")]));
     }
+    if tier == Tier::Thorough {
+        // a tree of more than 16 levels (handled by `run_deep`; 300 000 keys of 520 bytes, about 300 MB)
+        out.push(mk("deep-tree-300000-keys-of-520-bytes", &d, vec![], vec![]));
+    }
     // one uncommitted leaf with more than 2^16 entries (handled by `run_wide`)
     out.push(mk(&format!("wide-leaf-{}-entries-in-one-transaction", WIDE_N), &d, vec![], vec![]));
     out
@@ -280,6 +284,80 @@ fn wide_probe(b: &jammdb::Bucket, stage: &str, reads: &mut u64, mism: &mut Vec<V
     }
 }
 
+/// A tree more than 16 levels high: keys of 520 bytes (one or two per node at page size 1024), built by
+/// one commit of `n` keys; point lookups, seeks and a scan inside a following write transaction and
+/// in a read-only one.
+pub fn run_deep(path: &str, n: u32) -> Value {
+    let mut mism: Vec<Value> = vec![];
+    let mut reads = 0u64;
+    let key = |i: u32| -> Vec<u8> {
+        let mut k = format!("{:08}", i).into_bytes();
+        k.resize(520, b'k');
+        k
+    };
+    let r = real::guarded(|| -> Result<(), String> {
+        let _ = std::fs::remove_file(path);
+        let cfg = Cfg::default();
+        let db = cfg.open(path).map_err(|e| format!("{:?}", e))?;
+        {
+            let tx = db.tx(true).map_err(|e| format!("{:?}", e))?;
+            let b = tx.create_bucket("b").map_err(|e| format!("{:?}", e))?;
+            for i in 0..n {
+                b.put(key(i), format!("v{}", i)).map_err(|e| format!("put {}: {:?}", i, e))?;
+            }
+            drop(b);
+            tx.commit().map_err(|e| format!("commit: {:?}", e))?;
+        }
+        let bytes = crate::runner::read_db_file(path, 1024);
+        let levels = crate::fileck::check(&bytes, 1024).map(|r| r.shape.0).unwrap_or(0);
+        mism.retain(|_: &Value| true);
+        for writable in [true, false] {
+            let tx = db.tx(writable).map_err(|e| format!("{:?}", e))?;
+            let b = tx.get_bucket("b").map_err(|e| format!("{:?}", e))?;
+            if writable {
+                b.put(key(n + 1), "late").map_err(|e| format!("{:?}", e))?;
+            }
+            let stage = if writable { "write transaction" } else { "read-only transaction" };
+            for i in (0..n).step_by((n as usize / 300).max(1)) {
+                reads += 2;
+                match b.get_kv(key(i)) {
+                    Some(kv) if kv.value() == format!("v{}", i).as_bytes() => {}
+                    other => {
+                        if mism.len() < 5 {
+                            mism.push(json!(["deep_get", format!("[{} levels, {}] get_kv(entry {}) = {:?}", levels, stage, i, other.map(|kv| String::from_utf8_lossy(kv.value()).to_string()))]));
+                        }
+                    }
+                }
+                let mut c = b.cursor();
+                let ex = c.seek(key(i));
+                let first = c.next().map(|d| d.key().to_vec());
+                if (!ex || first != Some(key(i))) && mism.len() < 5 {
+                    mism.push(json!(["deep_seek", format!("[{} levels, {}] seek(entry {}) returned {} and the cursor yields {:?}", levels, stage, i, ex, first.map(|k| String::from_utf8_lossy(&k[..8]).to_string()))]));
+                }
+            }
+            reads += 1;
+            let cnt = b.cursor().count();
+            let want = n as usize + if writable { 1 } else { 0 };
+            if cnt != want {
+                mism.push(json!(["deep_scan", format!("[{} levels, {}] the scan yields {} entries of {}", levels, stage, cnt, want)]));
+            }
+            drop(b);
+            drop(tx);
+        }
+        if levels < 17 {
+            mism.push(json!(["harness", format!("the deep tree has only {} levels", levels)]));
+        }
+        Ok(())
+    });
+    match r {
+        Ok(Ok(())) => {}
+        Ok(Err(e)) => mism.push(json!(["deep_error", e])),
+        Err(p) => mism.push(json!([crate::runner::panic_class("deep_panic", &p), p])),
+    }
+    let _ = std::fs::remove_file(path);
+    json!({"v": mism, "reads": reads, "nontrivial": reads, "levels": [0, 0, 0], "keys": n, "probes": 300})
+}
+
 pub fn run_wide(path: &str) -> Value {
     let mut mism: Vec<Value> = vec![];
     let mut reads = 0u64;
@@ -321,6 +399,9 @@ pub fn run_wide(path: &str) -> Value {
 fn run_shape(sh: &Shape, path: &str) -> Value {
     if sh.name.starts_with("wide-leaf") {
         return run_wide(path);
+    }
+    if sh.name.starts_with("deep-tree") {
+        return run_deep(path, 300_000);
     }
     let mut mism: Vec<Value> = vec![];
     let mut stats = ProbeStats::default();
@@ -427,6 +508,10 @@ pub fn worker(idx: usize) {
             emit("wide");
             return run_wide(&path).to_string();
         }
+        if job.trim() == "deep" {
+            emit("deep");
+            return run_deep(&path, 300_000).to_string();
+        }
         let shs = &cache.as_ref().unwrap().1;
         let i: usize = job.trim().parse().unwrap();
         emit(&format!("{}", i));
@@ -492,10 +577,29 @@ pub fn run_wide_check(check: &mut Check) {
     pool.job_timeout = std::time::Duration::from_secs(300);
     let mut res: Option<Value> = None;
     let mut died: Option<String> = None;
-    pool.run(vec!["wide".to_string()], |_ji, o| match o {
-        Outcome::Done(r) => res = serde_json::from_str::<Value>(&r).ok(),
+    let mut jobs = vec!["wide".to_string()];
+    if check.tier == Tier::Thorough {
+        jobs.push("deep".to_string());
+    }
+    let mut res_deep: Option<Value> = None;
+    pool.run(jobs, |ji, o| match o {
+        Outcome::Done(r) => {
+            if ji == 0 {
+                res = serde_json::from_str::<Value>(&r).ok()
+            } else {
+                res_deep = serde_json::from_str::<Value>(&r).ok()
+            }
+        }
         other => died = Some(format!("{:?}", other)),
     });
+    if let Some(v) = res_deep {
+        let tier2 = check.tier;
+        for x in v["v"].as_array().cloned().unwrap_or_default() {
+            let class = x[0].as_str().unwrap_or("").to_string();
+            check.violation(&format!("read:{}", class), &format!("[300 000 keys of 520 bytes] {}", x[1].as_str().unwrap_or("")), || json!({"engine": "enumx", "tier": tier2.name(), "shape": "deep-tree-300000-keys-of-520-bytes", "deep": true}));
+        }
+        check.cov("deep_tree.api_calls", v["reads"].clone());
+    }
     let tier = check.tier;
     if let Some(d) = died {
         check.violation("process_death", &format!("[wide leaf] worker died or hung: {}", d), || json!({"engine": "enumx", "tier": tier.name(), "shape": "wide-leaf", "wide": true}));
